@@ -1,6 +1,6 @@
 (* Statements of Props/C12.v assembled from the lemmas of Ckpt/*.v *)
 From Verif Require Import Lib.Base Mkvs.Trie Mkvs.TrieProofs Mkvs.HashProofs
-  Ckpt.Model Ckpt.Proofs Ckpt.ParProofs Ckpt.RestoreProofs Ckpt.Examples.
+  Ckpt.Model Ckpt.Proofs Ckpt.ParProofs Ckpt.RestoreProofs Ckpt.Examples Gen.CkptConsts.
 
 Lemma chunks_cover_l : forall H size threads t, wf t ->
   (forall c, In c (chunks H size threads t) -> incl (pleaves c) (contents t)) /\
@@ -64,3 +64,13 @@ Lemma verified_proof_sound_l : forall H hlen, (forall x, length (H x) = hlen) ->
   incl (pleaves p) (contents t) \/ collision H.
 Proof. intros H hlen Hl p t. now apply verify_sound. Qed.
 
+
+Lemma gen_consts_expected_l :
+  max_proof_depth = 128 /\ proof_depth_guard_is_gt = true /\ split_iters = 10 /\
+  seq_continue_is_lt = true /\ chunk_proof_version = 0 /\
+  (prefix_leaf, prefix_internal, prefix_nil) = (0, 1, 2) /\ depth_size = 2 /\ value_length_size = 4.
+Proof. repeat split; reflexivity. Qed.
+
+Lemma par_runs_nonempty_l : forall size threads t,
+  wf t -> t <> Nil -> Forall (fun r => r <> []) (fst (par_runs size threads t)).
+Proof. intros size threads t W Hn. exact (ParProofs.par_runs_nonempty H0 t W size threads Hn). Qed.
